@@ -32,6 +32,9 @@ def run(chk, repo, tier):
     chk.clause('C07-d', 'zero outside the mask: the mask is a factor of every phasor', 4)
     from .extra_rules import mask_support_rule
     mask_support_rule(chk, repo, 'C07-d')
+    from .c20 import helper_rules as _helper_rules
+    from .common import Remap as _Remap
+    _helper_rules(_Remap(chk, {'C20-d': 'C07-d'}), repo)
     chk.clause('C07-e', 'wavelength unchanged, focal length forwarded, Pupil hands over its focal length after delegating', 4)
     chk.clause('C07-f', 'a plane with default attributes is the identity (phasor folds to 1)', 1)
     chk.clause('C07-g', 'inconsistent pixel scales are refused (both components compared)', 1)
